@@ -43,6 +43,7 @@ def run(repo: Repo, chk: Check) -> None:
     rewrite_identities(repo, chk)
     pack(repo, chk)
     transform_linear(repo, chk)
+    compose(repo, chk)
     pattern_canon(repo, chk)
 
 
@@ -717,6 +718,54 @@ def rewrite_identities(repo: Repo, chk: Check) -> None:
 
 # --------------------------------------------------------------------------- AffineTransform only represents linear maps
 AT = "snaxc/ir/dart/affine_transform.py"
+def compose(repo: Repo, chk: Check) -> None:
+    """(f o g)(x) = A_f (A_g x + b_g) + b_f. A return that hands back one operand unchanged claims the other one is the identity FUNCTION, which is a
+    statement about its matrix and its translation"""
+    chk.rule("C19.compose", "AffineTransform.compose returns type(self)(self.A @ other.A, self.A @ other.b + self.b); a shortcut that returns one operand unchanged "
+             "is taken only under a test that reads the translation `b` of the operand it drops (an identity matrix with b != 0 is a shift)", floor=1)
+    f, fl = flow_of(repo, chk, AT, "AffineTransform.compose")
+    me, other = f.param(0), f.param(1)
+    cls_ = f.cls
+    rets = [s for s in fl.stmts(ast.Return) if s.reachable and s.node.value is not None]
+    if not rets:
+        raise AnalysisError(f"{f.where}: compose has no return")
+
+    def reads(fact_expr: ast.expr, who: str, depth: int = 0) -> set[str]:
+        """attributes of `who` a condition reads, properties / methods of the class looked through"""
+        out: set[str] = set()
+        for n in ast.walk(fact_expr):
+            if isinstance(n, ast.Attribute) and isinstance(n.value, ast.Name) and n.value.id == who:
+                out.add(n.attr)
+                m_ = cls_.methods.get(n.attr) if cls_ is not None else None
+                if m_ is not None and depth < 3:
+                    for r_ in ast.walk(m_.node):
+                        if isinstance(r_, ast.Return) and r_.value is not None:
+                            out |= reads(r_.value, "self", depth + 1)
+        return out
+
+    for n_, s in enumerate(rets, 1):
+        v = norm.primary(s.expand(s.node.value))
+        key = f"{f.key}:return#{n_}"
+        m = norm.any_match(["type($s)($a, $b)", "$c($a, $b)"], v)
+        if m is not None:
+            a_ok = norm.match(T(f"{me}.A @ {other}.A"), norm.primary(m["a"])) is not None
+            b_ok = norm.any_match([f"{me}.A @ {other}.b + {me}.b", f"{me}.b + {me}.A @ {other}.b"], norm.primary(m["b"])) is not None
+            chk.result(a_ok and b_ok, "C19.compose", key, s.where(), "A = self.A @ other.A, b = self.A @ other.b + self.b",
+                       f"the composition is built as ({ast.unparse(m['a'])[:50]}, {ast.unparse(m['b'])[:60]}); expected (self.A @ other.A, self.A @ other.b + self.b)")
+            continue
+        if isinstance(v, ast.Name) and v.id in (me, other):
+            dropped = other if v.id == me else me
+            seen: set[str] = set()
+            for fa in s.facts:
+                if fa.kind == "atom":
+                    seen |= reads(fa.expr, dropped)
+            chk.result("b" in seen and "A" in seen, "C19.compose", key, s.where(), f"`{v.id}` is returned unchanged only after the matrix and the translation of `{dropped}` were tested",
+                       f"`{v.id}` is returned unchanged under a test that reads only {sorted(seen)} of `{dropped}`: a transform with identity matrix and b != 0 is a shift, "
+                       "and composing with it must add A @ b (resp. b) to the translation", s.fact_texts)
+            continue
+        raise AnalysisError(f"{s.where()}: compose returns `{ast.unparse(v)[:80]}`, a form this rule does not read")
+
+
 NONLIN = ("FloorDiv", "CeilDiv", "Mod")
 
 
